@@ -222,6 +222,28 @@ CLAIMED = {
             'NOT claimed; Cython absent: .pyx analysed via validated '
             'transliteration',
             TECH + '; z3 NRA lemmas for the geometric side conditions'),
+    'C10': ('3/C10',
+            '(a) the frame condition (caller-held arrays hold the same '
+            'terms / bits / dtype after the call) on every explored path of '
+            'the symbolic harnesses of C02, C04, C07, C11, C14, C16, C17, '
+            'C19, where NaN flags, signs and mask bits are solver choices so '
+            'every clean-up branch is reached; (b) for 20 entry points that '
+            'cannot carry symbolic arrays (Background2D, star finders, PSF '
+            'photometry, Gaussian centroids, catalog, profiles, '
+            'calc_total_error, Ellipse, ...) every feasible combination of '
+            'container (ndarray / MaskedArray / Quantity / strided view), '
+            'NaN present, negative pixels inside sources, mask none/bool/'
+            'int8, error given, with every lazy public property read, is '
+            'executed and deep snapshots of data, error, mask, kernels, '
+            'footprints, thresholds, tables, models, apertures and '
+            'segmentation images are compared bit for bit (incl. memory '
+            'outside a view).',
+            'part (b) is a solver-enumerated finite product on one generated '
+            'scene, not a for-all over data values',
+            'frame condition inside the symbolic executions + '
+            'solver-enumerated (z3 all-SAT) representation/data-condition '
+            'vectors executed on the real entry points with bit-for-bit '
+            'snapshot comparison'),
 }
 
 NOT_YET = {}
